@@ -65,7 +65,7 @@ def shard_main(prop, tier, seed, shard, nshards, outfile):
     if budget:
         # soft stop; case lists are finite and sized to finish well inside it on an idle machine, so a slower or
         # loaded machine gets head-room instead of an INCONCLUSIVE from unmet minimums
-        budget *= float(os.environ.get("VERIF_BUDGET_SCALE", "2"))
+        budget *= float(os.environ.get("VERIF_BUDGET_SCALE", "4"))
     setup = getattr(mod, "setup", None)
     if setup:
         setup(ctx)
